@@ -36,7 +36,8 @@ type ComparableString struct {
 
 // CompareTo Compare with an another object
 func (obj ComparableString) CompareTo(input interface{}) int {
-	return strings.Compare(string(obj.Val), string(input.(ComparableString).Val))
+	// Same convention as CompareToOrdered/ComparableOrdered: positive when the receiver sorts before input
+	return strings.Compare(string(input.(ComparableString).Val), string(obj.Val))
 }
 
 // SortDescriptor Define a Transformer Pattern SortDescriptor
@@ -58,7 +59,7 @@ func SortedListBySortDescriptors[T any](sortDescriptors []SortDescriptor[T], inp
 // SortBySortDescriptors Sort items by sortDescriptors
 func SortBySortDescriptors[T any](sortDescriptors []SortDescriptor[T], input []T) {
 	Sort(func(item1 T, item2 T) bool {
-		return _compareBySortDescriptors(item1, item2, sortDescriptors, 0) >= 0
+		return _compareBySortDescriptors(item1, item2, sortDescriptors, 0) > 0
 	}, input)
 }
 
@@ -69,9 +70,9 @@ func _compareBySortDescriptors[T any](item1 T, item2 T, sortDescriptors []SortDe
 	result := 0
 	if key1 != nil && key2 != nil {
 		if descriptor.IsAscending() {
-			key1.CompareTo(key2)
+			result = key1.CompareTo(key2)
 		} else {
-			key2.CompareTo(key1)
+			result = key2.CompareTo(key1)
 		}
 	}
 	if key1 != nil && key2 == nil {
